@@ -2,8 +2,9 @@
    well-formed warping path (contiguous unit steps down to the psi-relaxed
    border), runs only through finite, i.e. in-band and max_step-admissible,
    cells, and its cost, penalties included, is exactly the value of that cell. *)
-From Coq Require Import ZArith List Lia.
-From DV Require Import Cost Grid Dtw DtwSpec Traceback RelaxedEnd RelaxedEndSpec.
+From Coq Require Import ZArith List Lia String.
+From DV Require Import Cost Grid Dtw DtwSpec Traceback RelaxedEnd RelaxedEndSpec TracebackC CTrace.
+From DVGen Require Import Gen_ctrace.
 
 Theorem C05_traced_path_cost : forall u s1 s2 i j,
   wpath_cost u s1 s2 i j (tb (Mfun u s1 s2) (adj_penalty u) (i + j) i j) = Some (Mfun u s1 s2 i j).
@@ -46,3 +47,24 @@ Proof. exact warping_path_cost_is_distance. Qed.
 Theorem C05_relaxed_value_is_distance : forall u s1 s2, (1 <= sr s1)%nat -> (1 <= sc s2)%nat ->
   value (Mfun u s1 s2) (sr s1) (sc s2) (psi_1e u) (psi_2e u) = dtw_value u s1 s2.
 Proof. exact relaxed_value_is_dtw_value. Qed.
+
+(* ---- the C tracebacks.  (1) Any rule that picks a minimal predecessor traces a path whose cost is the value of the
+   start cell; the rule of dtw_best_path / dtw_best_path_customstart (diag if diag <= left+pen and diag <= up+pen,
+   else left if left <= up, else up -- condition texts checked by the translator) is such a rule. *)
+Theorem C05_c_rule_traces_an_optimal_path : forall u s1 s2 fuel i j, (i + j <= fuel)%nat ->
+  wpath_cost u s1 s2 i j (gtb (cpick (cell u s1 s2) (adj_penalty u) (psi_1b u) (psi_2b u)) fuel i j) = Some (Mfun u s1 s2 i j).
+Proof. intros u s1 s2 fuel i j H. apply c_traceback_cost. exact H. Qed.
+
+(* (2) The loops of all five C traceback routines address the compact array through its layout: with wpsi the slot of
+   the current cell, the three reads are the slots of (rip-1,cip-1), (rip,cip-1), (rip-1,cip) in THEIR rows, inside those
+   rows for band cells, and every move re-establishes the invariant (tables regenerated from dd_dtw.c). *)
+Theorem C05_c_traceback_loops_follow_the_layout : forall l1 l2 window0, (1 <= l1)%Z -> (1 <= l2)%Z -> (0 <= window0)%Z ->
+  forall t, In t trace_loops -> loop_ok l1 l2 window0 t.
+Proof. exact trace_loops_follow_the_layout. Qed.
+
+Theorem C05_c_traceback_start_slot : forall l1 l2 window0, (1 <= l1)%Z -> (1 <= l2)%Z -> (0 <= window0)%Z -> init_ok l1 l2 window0.
+Proof. exact trace_start_is_the_corner_slot. Qed.
+
+Theorem C05_c_plain_decisions : forall t, In t trace_loops ->
+  (tl_function t = "dtw_best_path" \/ tl_function t = "dtw_best_path_customstart")%string -> tl_decision t = "le_pen"%string.
+Proof. exact plain_decisions. Qed.
